@@ -101,12 +101,15 @@ def run(tier):
         s = 11 * k * k
         ranges.append([max(1, s - 1), 3 if s < 1000000 else 2])
     if thorough:
-        ranges = [[1, 1000000]]
-    else:
-        for _ in range(20):
-            s0 = rng.randrange(20001, 999000)
-            ranges.append([s0, 1000])
-        ranges.append([999001, 1000])
+        ranges[0] = [1, 1000000]
+    for _ in range(20):
+        s0 = rng.randrange(20001, 999000)
+        ranges.append([s0, 1000])
+    ranges.append([999001, 1000])
+    # the same function is asked again for small s after large ones, and downwards (a result must not depend on earlier calls)
+    ranges += [[1, 3000], [20, 1], [50, 1]]
+    desc = [[s, 1] for s in range(2100, 0, -7)]
+    ranges += desc
     job = os.path.join(tmp, "tj.json")
     outp = os.path.join(tmp, "tt.ndjson")
     with open(job, "w") as fh:
@@ -136,15 +139,17 @@ def run(tier):
     for e in rej:
         # confirm against the real code once more (deterministic functions: re-run and compare the event)
         if e["ev"] == "threshold":
+            # the whole call sequence is executed again: the answer may depend on the calls before it
+            idx = [i for i, x in enumerate(ev_thr) if x is e or (x["s0"] == e["s0"] and x["ts"] == e["ts"])][0]
             with open(job, "w") as fh:
-                json.dump({"ranges": [[e["s0"], len(e["ts"])]], "batch": 1000}, fh)
-            p = vlib.run_bin(hz, ["threshold-trace", job, outp], timeout=300)
+                json.dump({"ranges": ranges, "batch": 1000}, fh)
+            p = vlib.run_bin(hz, ["threshold-trace", job, outp], timeout=900)
             again = vlib.read_ndjson(outp)
-            if not again or again[0]["ts"] != e["ts"]:
+            if len(again) <= idx or again[idx]["ts"] != e["ts"]:
                 raise vlib.InfraError("threshold event not reproducible")
             run.violation({"kind": "threshold", "s0": e["s0"]},
-                          {"cmd": "threshold-trace", "event": {"s0": e["s0"], "n": len(e["ts"]), "ts": e["ts"]},
-                           "why": "TraceDecision.tla rejects: some ts[i] is not the least t with Pred(s,t)"})
+                          {"cmd": "threshold-trace", "ranges": ranges, "index": idx, "event": {"s0": e["s0"], "n": len(e["ts"]), "ts": e["ts"]},
+                           "why": "TraceDecision.tla rejects: some ts[i] is not the least t with Pred(s,t) (call sequence = ranges in order)"})
         else:
             run.violation({"kind": "thresholdq-long", "n": len(e["qs"])},
                           {"cmd": "thresholdq-trace", "event": e, "why": "TraceDecision.tla rejects ThresholdQEvent"})
@@ -177,8 +182,9 @@ def replay(path):
     elif rp["cmd"] == "threshold-trace":
         e = rp["event"]
         with open(job, "w") as fh:
-            json.dump({"ranges": [[e["s0"], e["n"]]], "batch": 1000}, fh)
+            json.dump({"ranges": rp.get("ranges") or [[e["s0"], e["n"]]], "batch": 1000}, fh)
         vlib.run_bin(hz, ["threshold-trace", job, outp])
-        print(open(outp).read()[:2000])
+        rows = vlib.read_ndjson(outp)
+        print("recorded:", json.dumps(e)[:1000]); print("code now:", json.dumps(rows[rp.get("index", 0)])[:1000])
     else:
         print(json.dumps(rp)[:3000])
